@@ -19,11 +19,10 @@ from props.c15 import pair_match
 TYKIND = "chalk_ir::TyKind"
 
 
-def run(ck, facts, tier):
-    from shared import fixedpoint
-    fixedpoint.table(ck, facts, "C05.FIXED-POINT-TABLE", which=("stale",))
-    # ------------------------------------------------------------------ COIND-TABLE
-    R = "C05.COIND-TABLE"
+def coind_table(ck, facts, R, only=None, floor=24):
+    """IsCoinductive for Goal as a table over every GoalData / DomainGoal / WhereClause cell (shared with C06, which owns the rows of
+    the hypothesis goals: FromEnv must stay inductive, or an assumption about one type proves goals about another through a cycle of
+    implied bounds)."""
     ck.rule(R, "K1 vs spec: IsCoinductive for Goal is true exactly for Implemented(tr) with is_auto_trait() || is_coinductive_trait(), "
                "for WellFormed(Trait), and for ForAll (by recursion); every other GoalData / DomainGoal / WhereClause variant is false")
     key = "<chalk_ir::Goal as chalk_solve::coinductive_goal::IsCoinductive>::is_coinductive"
@@ -66,6 +65,8 @@ def run(ck, facts, tier):
                     cells.append((gv, V(gv), None))
             want = {"DomainGoal(Holds(Implemented))": "auto||coinductive", "DomainGoal(WellFormed(Trait))": "true", "Quantified(ForAll)": "recurse"}
             for label, val, wv in cells:
+                if only is not None and not only(label):
+                    continue
                 n += 1
                 arms = select_arms(m, val)
                 arm = m["arms"][arms[0][0]]
@@ -79,7 +80,16 @@ def run(ck, facts, tier):
                     ck.ok(R, label, got)
                 else:
                     ck.violation(R, label, b.where(arm["ln"]), "classified `%s`, coinductive semantics require `%s`" % (got, w))
-            ck.floor(R, "cells", n, 24)
+            ck.floor(R, "cells", n, floor)
+
+
+
+def run(ck, facts, tier):
+    from shared import fixedpoint
+    fixedpoint.table(ck, facts, "C05.FIXED-POINT-TABLE", which=("stale",))
+    coind_table(ck, facts, "C05.COIND-TABLE")
+    from props.c10 import refinement_guard
+    refinement_guard(ck, facts, "C05.REFINE-GUARD")
 
     # ------------------------------------------------------------------ CONSTITUENTS
     R = "C05.CONSTITUENTS"
